@@ -28,7 +28,20 @@ def main(argv):
         tier = argv[1]
     seed = int(os.environ.get("VERIF_SEED", "0"))
     prop.tier = tier
-    return core.run_check(prop, tier, seed)
+    try:
+        return core.run_check(prop, tier, seed)
+    except Exception as e:  # noqa: BLE001
+        # the check itself failed (never seen on the unchanged tree): the property is not shown to hold by this run -- reported in the
+        # protocol's terms instead of a bare traceback
+        import traceback
+
+        tb = traceback.format_exc()
+        print(tb[-3000:])
+        path = core.write_replay(pid, {"property": pid, "no_failing_input_found": True, "seed": seed, "tier": tier,
+                                       "broken": [{"kind": "harness", "error": f"{type(e).__name__}: {e}", "trace": tb[-3000:]}],
+                                       "note": "the check raised before reaching a verdict; no obligation was discharged by this run"})
+        print(f"VIOLATION property={pid} replay={path} no-failing-input-found")
+        return 1
 
 
 if __name__ == "__main__":
